@@ -1,4 +1,5 @@
 import Props.C13
+import Props.C13b
 #print axioms C13.codes_valid
 #print axioms C13.rgbToYuv_total
 #print axioms C13.yuvToRgb_total
@@ -7,3 +8,4 @@ import Props.C13
 #print axioms C13.linearToRgb_total
 #print axioms C18.exp2_total
 #print axioms C18.curve_total
+#print axioms C13.curves_finite
